@@ -98,12 +98,137 @@ impl Check for C09Group {
     }
 }
 
+// ---------------------------------------------------------------- thousands of rows, thousands of keys
+
+#[derive(Clone, Debug, Serialize, Deserialize)]
+pub struct Case09L {
+    pub n: u32,
+    pub seed: u64,
+    /// number of distinct group keys
+    pub nkeys: u32,
+    pub merge: bool,
+    /// one row in `odd_every` has a key that is not a string, or none (0 = never)
+    pub odd_every: u8,
+    /// 0 default, 1 consise, 2 pretty
+    pub style: u8,
+}
+
+pub struct C09Large;
+impl Check for C09Large {
+    type Case = Case09L;
+    fn name(&self) -> &'static str {
+        "C09.large"
+    }
+    fn cases(&self, tier: Tier) -> u64 {
+        tier.pick(320, 4_000)
+    }
+    fn strategy(&self, t: Tier) -> BoxedStrategy<Case09L> {
+        let max_n: u32 = t.pick(6_000, 70_000);
+        (prop_oneof![3 => 1_030u32..3_000, 1 => 3_000u32..max_n, 1 => 100u32..1_030], any::<u64>(), prop_oneof![Just(3u32), Just(17), Just(50), Just(1_000), 1_024u32..5_000], prop::bool::weighted(0.3), prop_oneof![Just(0u8), 2u8..30], 0u8..3)
+            .prop_map(|(n, seed, nkeys, merge, odd_every, style)| Case09L { n, seed, nkeys, merge, odd_every, style })
+            .boxed()
+    }
+    fn check(&self, c: &Case09L) -> CaseResult {
+        let mut x = c.seed | 1;
+        let mut next = || {
+            x ^= x << 13;
+            x ^= x >> 7;
+            x ^= x << 17;
+            x
+        };
+        let mut input = String::with_capacity(c.n as usize * 32);
+        let mut keys: Vec<String> = Vec::new();
+        let mut index: std::collections::HashMap<String, usize> = std::collections::HashMap::new();
+        let mut groups: Vec<Vec<RVal>> = Vec::new();
+        let mut all: Vec<RVal> = Vec::new();
+        let mut dropped = 0usize;
+        for i in 0..c.n {
+            let h = next();
+            let odd = c.odd_every > 0 && (h >> 40) % c.odd_every as u64 == 0;
+            let row = if odd {
+                match (h >> 50) % 4 {
+                    0 => format!("{{\"i\":{}}}", i),
+                    1 => format!("{{\"i\":{},\"g\":{}}}", i, h % 7),
+                    2 => format!("{{\"i\":{},\"g\":null}}", i),
+                    _ => format!("{{\"i\":{},\"g\":[\"k1\"]}}", i),
+                }
+            } else {
+                format!("{{\"i\":{},\"g\":\"k{}\"}}", i, h % c.nkeys.max(1) as u64)
+            };
+            let v = parse_one(row.as_bytes()).unwrap();
+            if c.merge {
+                all.push(v);
+            } else if let Some(RVal::Str(k)) = v.get("g").cloned() {
+                match index.get(&k) {
+                    Some(p) => groups[*p].push(v),
+                    None => {
+                        index.insert(k.clone(), keys.len());
+                        keys.push(k);
+                        groups.push(vec![v]);
+                    }
+                }
+            } else {
+                dropped += 1;
+            }
+            input.push_str(&row);
+            input.push('\n');
+        }
+        let nk = keys.len();
+        let model = if c.merge { RVal::Arr(all) } else { RVal::Obj(keys.into_iter().zip(groups.into_iter().map(RVal::Arr)).collect()) };
+        let mut args: Vec<String> = vec![if c.merge { "--merge".to_string() } else { "--group-by=.g".to_string() }];
+        match c.style {
+            1 => args.push("--style=consise".into()),
+            2 => args.push("--style=pretty".into()),
+            _ => {}
+        }
+        let out = run(&args, input.as_bytes());
+        if !out.res.is_ok() {
+            return CaseResult::Fail(format!("grouped run failed: {} (args {:?})", out.res.short(), args));
+        }
+        let got = match parse_rows(&out.stdout) {
+            Ok(r) => r,
+            Err(e) => return CaseResult::Fail(format!("grouped output: {} in {}", e, esc_trunc(&out.stdout, 300))),
+        };
+        if got.len() != 1 {
+            return CaseResult::Fail(format!("{} rows printed instead of exactly one collection (args {:?}, {} input rows)", got.len(), args, c.n));
+        }
+        if !same_value(&model, &got[0]) {
+            // where do they differ? (key order, or the first group that differs)
+            let what = match (&model, &got[0]) {
+                (RVal::Obj(e), RVal::Obj(g)) => {
+                    let ek: Vec<&String> = e.iter().map(|m| &m.0).collect();
+                    let gk: Vec<&String> = g.iter().map(|m| &m.0).collect();
+                    if ek != gk {
+                        let p = ek.iter().zip(gk.iter()).position(|(a, b)| a != b).unwrap_or(ek.len().min(gk.len()));
+                        format!("{} keys expected, {} found; the key order differs first at position {} (expected {:?}, got {:?})", ek.len(), gk.len(), p, ek.get(p), gk.get(p))
+                    } else {
+                        let p = e.iter().zip(g.iter()).position(|(a, b)| !same_value(&a.1, &b.1)).unwrap_or(0);
+                        format!("group {:?} differs: expected {} got {}", e[p].0, trunc(&e[p].1.to_json(), 200), trunc(&g[p].1.to_json(), 200))
+                    }
+                }
+                (RVal::Arr(e), RVal::Arr(g)) => format!("{} elements expected, {} found", e.len(), g.len()),
+                _ => "wrong type".to_string(),
+            };
+            return CaseResult::Fail(format!("collection differs from the documented grouping of the {} input rows (args {:?}): {}", c.n, args, what));
+        }
+        CaseResult::Pass(
+            Info::new(c.n >= 1000 && (c.merge || nk >= 2))
+                .class(if c.merge { "merge" } else { "group_by" })
+                .class_if(nk >= 500, "five_hundred_keys_or_more")
+                .class_if(dropped > 0, "non_string_or_absent_key_dropped")
+                .class_if(c.n > 65_536, "more_than_65536_rows")
+                .obs(json!({"rows": c.n, "keys": nk, "stdout_bytes": out.stdout.len()})),
+        )
+    }
+}
+
 pub fn run_all(ctx: &mut Ctx) {
-    ctx.rule = "0..40 records whose group key ranges over strings (incl. \"\", non-ASCII, escaped spellings, numeric-looking), numbers, null, true, [], {} and absent x upstream split/filter/select/unique/sort/skip/take x json (3 styles) or text output; oracle: exactly one output row, equal to the documented grouping (first-seen string keys, arrival order, non-string/absent dropped) of the rows the same run prints without --group-by/--merge. non-trivial (group-by) = >= 2 distinct string keys, a repeated key and a dropped row; (merge) = >= 2 rows behind at least one upstream stage; empty inputs are generated explicitly (class empty_input / no_row_survives)".into();
+    ctx.rule = "0..40 records whose group key ranges over strings (incl. \"\", non-ASCII, escaped spellings, numeric-looking), numbers, null, true, [], {} and absent x upstream split/filter/select/unique/sort/skip/take x json (3 styles) or text output; oracle: exactly one output row, equal to the documented grouping (first-seen string keys, arrival order, non-string/absent dropped) of the rows the same run prints without --group-by/--merge. non-trivial (group-by) = >= 2 distinct string keys, a repeated key and a dropped row; (merge) = >= 2 rows behind at least one upstream stage; empty inputs are generated explicitly (class empty_input / no_row_survives). C09.large: 100..6000 rows (70000 thorough) derived from a seed with 3..5000 distinct keys, rows whose key is absent / a number / null / a list, three styles; oracle: the documented grouping computed by the harness from the input itself (first-seen key order, arrival order inside each list, one collection); non-trivial = >= 1000 rows".into();
     ctx.assumptions = vec!["the ungrouped run of the same pipeline defines 'the surviving rows' (metamorphic); the key is read from the printed row's g member".into()];
     C09Group.run(ctx);
+    C09Large.run(ctx);
 }
 
 pub fn checks() -> Vec<Box<dyn DynCheck>> {
-    vec![Box::new(C09Group)]
+    vec![Box::new(C09Group), Box::new(C09Large)]
 }
